@@ -150,14 +150,12 @@ HISTORY = {
     "C16-static-constants-set-of-paths": "MISSED at first: the module under test was never inside a package -> package "
                                          "cells (sibling modules with constants)",
     "C31-reap-before-recv": "MISSED at first: no result larger than a pipe buffer -> equalish.blob (128 KiB string)",
-    "C09-cleanse-on-accumulated-lines": "MISSED, still not reported: needs three test statements on one stateful object "
-                                        "(mutate, read, mutate) with a method whose implicit return None sits on the "
-                                        "mutation line - outside the two-call test case and the method-free fragment of "
-                                        "the C09 harness (the side notes of this seeder led to a genuine slicer defect, "
-                                        "see known_findings C09-subscript-store-no-definition)",
-    "C11-merge-memo-by-id": "MISSED, still not reported: a memo keyed by id() of dead results - manifests only through "
-                            "CPython's address reuse (allocator-dependent, the seeder's own demonstration fails in ~88 % "
-                            "of its rounds); the harness keeps every result alive for the whole exploration",
+    "C09-cleanse-on-accumulated-lines": "MISSED at first: the value of the first call never depended on a line that a "
+                                        "later call's implicit return None sits on -> family E (every f that calls g x "
+                                        "every g that stores the global: state flows across a nested call, then g is "
+                                        "called again)",
+    "C11-merge-memo-by-id": "MISSED at first: the harness kept every result alive for the whole exploration -> lifetime "
+                            "leg (short-lived results analysed, dropped and replaced, all ordered pairs and triples)",
 }
 
 
